@@ -6,7 +6,7 @@ from .. import oracles as O
 from .. import rng as rngmod
 from . import rewire as RW
 from .common import two_disjoint_edges
-from .C01 import feasible_mask, has_valid_swap
+from .C01 import feasible_mask, has_valid_swap, count_valid_swaps
 
 PROP = 'C11'
 ANCHORS = sorted(RW.CONN | RW.LAT | {'randomize_graph_partial_und'})
@@ -100,6 +100,21 @@ def cases(tier, seed):
                         'rs': seed * 100 + sd, 'pols': POL})
             out.append({'f': 'latmio_dir_connected', 'g': g, 'w': 'real', 'ws': sd, 'directed': True, 'kind': 'single', 'itrs': [2, 5],
                         'rs': seed * 100 + sd, 'pols': ['sticky', 'low']})
+    # triangles strung together by connector nodes, whole-run budgets (several iterations inside ONE call, so that
+    # anything the routine computed before its loop is stale by the time it matters), many seeds
+    for t in (2, 3, 4) if thorough else (2, 3):
+        for sd in range(60 if thorough else 12):
+            for f in ('randmio_und_connected', 'latmio_und_connected'):
+                out.append({'f': f, 'g': ['named', 'tri_cactus', t, seed * 7 + sd], 'w': 'bin', 'ws': sd, 'directed': False,
+                            'kind': 'single', 'itrs': [1, 2, 4], 'rs': seed * 1000 + sd * 13 + t,
+                            'pols': [POL[sd % len(POL)]], 'nspy': 12 if f == 'randmio_und_connected' else 2})
+    # masks that cover cells already holding a connection, several swaps per call: a covered connection may leave its
+    # cell, nothing may enter it afterwards; distinct real weights identify every connection
+    for t in range(150 if thorough else 40):
+        n = int(rs.randint(7, 13))
+        out.append({'f': 'randomize_graph_partial_und', 'g': ['named', 'er_connected', n, float(rs.choice([.25, .35, .5])), int(rs.randint(1 << 30))],
+                    'w': 'real', 'ws': t, 'directed': False, 'kind': 'mask_overlap', 'rs': seed * 100 + t,
+                    'dens': float(rs.choice([.2, .35, .5]))})
     # negative cases
     neg = [['disjoint', ['named', 'cycle', 4], ['named', 'cycle', 4]], ['iso', ['named', 'er_connected', 6, .4, seed], 1],
            ['disjoint', ['named', 'path', 3], ['named', 'complete', 4]], ['disjoint', ['named', 'complete', 3], ['named', 'complete', 3]],
@@ -175,7 +190,19 @@ def run(case, bct, REC):
         REC.sample(PROP, {'kind': 'chain', 'f': f, 'R': R, 'hostility': host, 'links': case['len'], 'accepted': acc,
                           'rng': case['rng']})
         return
-    descrs = [{'kind': 'spy', 'seed': case['rs']}] + [{'kind': 'hostile', 'policy': p, 'seed': case['rs']} for p in case['pols']]
+    if case['kind'] == 'mask_overlap':
+        B = feasible_mask(R, case['rs'], case['dens'], overlap=True)
+        nv = count_valid_swaps(R, B)
+        if nv < 240 or not np.any((B != 0) & (R != 0)):
+            REC.tag(PROP, 'mask_overlap:too_few_valid_swaps_skipped')
+            return
+        for d in ({'kind': 'spy', 'seed': case['rs']}, {'kind': 'spy', 'seed': case['rs'] + 1},
+                  {'kind': 'hostile', 'policy': POL[case['rs'] % len(POL)], 'seed': case['rs']}):
+            for ms in (2, 3, 5):
+                RW.execute(REC, bct, f, R, {'maxswap': ms, 'B': B, 'overlap': True}, rngmod.make_rng(d))
+        return
+    descrs = [{'kind': 'spy', 'seed': case['rs'] + 7919 * j} for j in range(case.get('nspy', 1))] + \
+             [{'kind': 'hostile', 'policy': p, 'seed': case['rs']} for p in case['pols']]
     for itr in case['itrs']:
         for di, d in enumerate(descrs):
             if f in RW.LAT:
